@@ -903,6 +903,55 @@ def check_shared_transformer(seed):
     return bad
 
 
+def check_perm_history(seed):
+    """(1) fit(y1); get_fct_inv(); fit(y2); get_fct_inv(): the reciprocal returned after the SECOND fit undoes the
+    second permutation.  (2) float32 / float16 targets with NaN: NaN stays NaN and the round trip is exact."""
+    import math
+    import random
+    import numpy
+    from mlinsights.mlmodel import PermutationReciprocalTransformer
+    rng = random.Random(seed)
+    bad = []
+    X = numpy.zeros((12, 1))
+    y1 = numpy.array([rng.choice([3, 5, 8, 13]) for _ in range(12)])
+    y2 = numpy.array([rng.choice([21, 34, 55, 89, 144]) for _ in range(12)])
+    y1[:4], y2[:5] = [3, 5, 8, 13], [21, 34, 55, 89, 144]
+    tag = "PermutationReciprocalTransformer[refit]"
+    try:
+        t = PermutationReciprocalTransformer(random_state=rng.randrange(1, 100))
+        t.fit(X, y1)
+        t.get_fct_inv()
+        t.fit(X, y2)
+        _, mid = t.transform(X, y2)
+        _, back = t.get_fct_inv().transform(X, mid)
+        if not numpy.array_equal(numpy.asarray(back), y2):
+            bad.append((tag + ":roundtrip", "after a second fit, get_fct_inv() does not undo the transformer",
+                        numpy.asarray(back).tolist(), y2.tolist()))
+    except Exception as e:  # noqa: BLE001
+        bad.append((tag + ":raises", "transform / get_fct_inv().transform raises after a second fit",
+                    "%s: %s" % (type(e).__name__, str(e)[:120]), "the original targets"))
+    for dt in (numpy.float32, numpy.float16):
+        vals = [0.5, 1.5, 2.0, 4.0]
+        yf = numpy.array([rng.choice(vals) for _ in range(10)] + vals, dtype=dt)
+        yf[rng.randrange(10)] = numpy.nan
+        tag = "PermutationReciprocalTransformer[%s labels]" % dt.__name__
+        try:
+            t = PermutationReciprocalTransformer(random_state=rng.randrange(1, 100)).fit(numpy.zeros((14, 1)), yf)
+            _, mid = t.transform(numpy.zeros((14, 1)), yf)
+            _, back = t.get_fct_inv().transform(numpy.zeros((14, 1)), mid)
+            mid, back = numpy.asarray(mid, dtype=float), numpy.asarray(back, dtype=float)
+            nan_in = [math.isnan(float(v)) for v in yf]
+            if [math.isnan(v) for v in mid] != nan_in or [math.isnan(v) for v in back] != nan_in:
+                bad.append((tag + ":nan-moved", "NaN targets do not stay NaN", [math.isnan(v) for v in mid], nan_in))
+            elif not all(a == float(b) for a, b, n in zip(back, yf, nan_in) if not n):
+                bad.append((tag + ":roundtrip", "round trip does not give the original targets back", back.tolist(),
+                            [float(v) for v in yf]))
+        except Exception as e:  # noqa: BLE001
+            bad.append((tag + ":roundtrip-raises", "transform / get_fct_inv().transform raises on float targets with NaN",
+                        "%s: %s" % (type(e).__name__, str(e)[:120]), "NaN stays NaN, other targets come back"))
+    return bad
+
+
 def _size(inp):
     return len(json_dumps(inp))
 
@@ -1003,6 +1052,13 @@ def search(ctx, hints):
         evals += 1
         nontriv.add(("shared-transformer", s1))
         report(bad, {"kind": "shared", "seed": s1})
+    # (e) refit histories of one transformer object, and float targets of every width
+    for t in range(ctx.pick(8, 60)):
+        s1 = rng.randrange(1 << 20)
+        bad = check_perm_history(s1)
+        evals += 1
+        nontriv.add(("perm-history", s1))
+        report(bad, {"kind": "perm-history", "seed": s1})
     # dedupe by key, keep the smallest input
     best = {}
     for v in found:
@@ -1028,6 +1084,8 @@ def replay(ctx, item):
         bad, _ = check_clf(inp["labels"], inp["clf"], inp["X"], ys, inp["random_state"], inp["Xq"])
     elif kind == "shared":
         bad = check_shared_transformer(inp["seed"])
+    elif kind == "perm-history":
+        bad = check_perm_history(inp["seed"])
     else:
         raise ValueError("unknown replay kind %r" % kind)
     best = {}
